@@ -1,6 +1,8 @@
 """C11 — functions give the same answer for JSON text as for its JSONB encoding (structural clauses)."""
 import report
-from rules import dispatch, c10
+from rules import dispatch, c10, c12, editing
+from mir import callee_name
+from pat import canon
 
 EXPLANATION = (
     "Static analysis (MIR, CFG reachability with guard edges removed). R11.1: for every public function that accepts a document as "
@@ -10,12 +12,51 @@ EXPLANATION = (
     "reached after the sniff said JSONB; the 2^k combinations are covered because the rule is per parameter, per path. "
     "R11.2: the decoder-first fallback (from_slice, used by contains/concat) is gated as in R10.3. R11.3: every call that hands two "
     "or more documents to a core passes them in the order of the public parameters (provenance through parse_value/to_vec buffers). "
-    "NOT decided: equality of results where the tree twin and the byte walker are separate code.")
+    "R11.4: where the tree twin and the byte walker are separate code, three deciding steps are cross-checked: strip_nulls visits every nested container in "
+    "both (R06.9), the tree twin of contains guards every recursive test as the byte walker does (R12.2), and case-insensitive member lookup folds case with the "
+    "same primitive in both. NOT decided: equality of results of twin implementations in general.")
+
+
+FOLDS = ('eq_ignore_ascii_case', 'to_lowercase', 'to_uppercase', 'to_ascii_lowercase', 'to_ascii_uppercase', 'make_ascii_lowercase', 'make_ascii_uppercase',
+         'eq_ignore_case', 'case_fold')
+
+
+def twin_case_folding(ctx, run, rule):
+    """Case-insensitive member lookup: the tree twin (Value::get_by_name_ignore_case) and the byte walker
+    (get_jentry_by_name) must fold case with the same primitive, otherwise text input and its encoding match different keys."""
+    f = ctx.facts
+    twins = {'tree': "value::Value::<'a>::get_by_name_ignore_case", 'bytes': 'functions::get_jentry_by_name'}
+    got = {}
+    for k, p in twins.items():
+        b = f.bodies.get(p)
+        if b is None:
+            run.undecided(rule, p, 'case-folding', 'function not found (anchor lost)')
+            return
+        cone = [x for x in ctx.cg.reachable([p]) if x in f.bodies and (x == p or x.startswith(p + '::{closure'))]
+        names = set()
+        for x in cone:
+            for _, t in f.bodies[x].calls():
+                last = canon(callee_name(t)).split('::')[-1]
+                if last in FOLDS:
+                    names.add(last)
+        got[k] = names
+    loc = f"{f.bodies[twins['tree']].file}:{f.bodies[twins['tree']].line}"
+    if not got['tree'] or not got['bytes']:
+        run.undecided(rule, twins['tree'], 'case-folding', f'no case-folding primitive recognised in one of the twins ({got}): not decided', loc)
+    elif got['tree'] == got['bytes']:
+        run.proved(rule, twins['tree'], 'case-folding', f'both twins compare keys with {sorted(got["tree"])}', loc)
+    else:
+        run.violation(rule, twins['tree'], 'case-folding', f'the tree twin folds case with {sorted(got["tree"])}, the byte walker with {sorted(got["bytes"])}: a key that differs from the name only in the case of a '
+                      'non-ASCII letter matches for JSON text but not for its JSONB encoding (or the reverse)', loc)
 
 
 def check(ctx, run):
-    run.rules_run = ['R11.1', 'R11.2', 'R11.3']
+    run.rules_run = ['R11.1', 'R11.2', 'R11.3', 'R11.4']
     dispatch.r11_1(ctx, run)
     c10.r10_3(ctx, run, rule='R11.2')
     dispatch.r11_3(ctx, run)
+    # ---- R11.4 the tree twin and the byte walker of one operation agree on the steps that decide its result
+    editing.r06_9(ctx, run, rule='R11.4/R06.9', which=('bytes', 'tree'))
+    c12.tree_twin_guards(ctx, run, 'R11.4/R12.2')
+    twin_case_folding(ctx, run, 'R11.4')
     return report.finish(run, level='other', explanation=EXPLANATION, assumptions=["is_jsonb is the library's own representation sniff; text beginning with a space is excluded by the property"])
